@@ -40,5 +40,13 @@ for i in ids:
                         "tail": out[-300:] if not vl else ""}
 res["check_s"] = round(time.time() - t)
 res["detected"] = any(c["exit"] == 1 and c["violation_lines"] for c in res["checks"].values())
+if os.path.exists(rp):  # preserve hand-written annotations across re-runs
+    try:
+        old = json.load(open(rp))
+        for k in ("first_run", "also_caught_by", "note"):
+            if k in old and k not in res:
+                res[k] = old[k]
+    except ValueError:
+        pass
 json.dump(res, open(rp, "w"), indent=1)
 print(name, "confirmed=%s" % res["confirmed"], "detected=%s" % res["detected"], {i: (c["exit"], c["concrete_input"], c["keys"][:3]) for i, c in res["checks"].items()})
